@@ -28,7 +28,7 @@ EXTENDS SwaySem, FiniteSets
 
 HugeIx == 2147483647          \* stands for u64::max() in an index position (rendered as such)
 
-BE8(n) == ToBE(FromNat(n, 8))
+BE8(n) == IF n < 65536 THEN <<0, 0, 0, 0, 0, 0, n \div 256, n % 256>> ELSE ToBE(FromNat(n, 8))
 
 (***************************************************************************)
 (* Element types: which of raw_ptr's three read/write paths is taken       *)
@@ -225,11 +225,24 @@ RECURSIVE SigFrom(_, _)
 SigFrom(a, i) == IF i = 0 THEN 0 ELSE IF a[i] # 0 THEN i ELSE SigFrom(a, i - 1)
 SigLen(a) == SigFrom(a, Len(a))
 
-\* product of a and b (any lengths) as exactly w2 bytes, plus whether it does not fit in w bytes;
+\* schoolbook product (Len(a) + Len(b) bytes), same function as Bytes!MulFull; every column only visits
+\* the index pairs that exist (MC_StdModels checks MulFast = MulFull on the pool)
+RECURSIVE ColFast(_, _, _, _, _)
+ColFast(a, b, k, i, hi) == IF i > hi THEN 0 ELSE a[i] * b[k - i + 1] + ColFast(a, b, k, i + 1, hi)
+RECURSIVE MulCols(_, _, _, _)
+MulCols(a, b, k, c) ==
+    IF k > Len(a) + Len(b) THEN <<>>
+    ELSE LET lo == IF k > Len(b) THEN k - Len(b) + 1 ELSE 1
+             hi == IF k < Len(a) THEN k ELSE Len(a)
+             s == ColFast(a, b, k, lo, hi) + c
+         IN <<s % 256>> \o MulCols(a, b, k + 1, s \div 256)
+MulFast(a, b) == MulCols(a, b, 1, 0)
+
+\* product of a and b (any lengths) as exactly w bytes, plus whether it does not fit in w bytes;
 \* only the significant bytes are multiplied
 MulW(a, b, w) ==
     LET la == SigLen(a) lb == SigLen(b)
-        p == IF la = 0 \/ lb = 0 THEN <<>> ELSE MulFull(SubSeq(a, 1, la), SubSeq(b, 1, lb))
+        p == IF la = 0 \/ lb = 0 THEN <<>> ELSE MulFast(SubSeq(a, 1, la), SubSeq(b, 1, lb))
     IN [v |-> Resize(p, w), ovf |-> \E i \in DOMAIN p : i > w /\ p[i] # 0]
 
 \* a ^ e for a natural e, by squaring; stops at the first overflow of w bytes
@@ -248,16 +261,17 @@ Pow(a, e, w) == PowLoop(a, e, One(w), w)
 IsSqrt(x, r, w) ==
     LET W2 == 2 * w + 2
         r1 == Add(Resize(r, w + 1), One(w + 1)).v
-        lo == Resize(MulFull(r, r), W2)
-        hi == MulFull(r1, r1)
+        lo == MulW(r, r, W2).v
+        hi == MulW(r1, r1, W2).v
         xx == Resize(x, W2)
     IN Len(r) = w /\ Le(lo, xx) /\ Lt(xx, hi)
 
 \* r = floor(log_b(x)) for b >= 2, x >= 1, as a relation: b^r <= x < b^(r+1)
 IsLog(x, b, r, w) ==
     /\ Len(r) = w /\ IsSmall(r) /\ ToNat(r) <= 8 * w
-    /\ LET p == Pow(b, ToNat(r), w) q == Pow(b, ToNat(r) + 1, w) IN
-          ~p.ovf /\ Le(p.v, x) /\ (q.ovf \/ Lt(x, q.v))
+    /\ LET p == Pow(b, ToNat(r), w) IN
+          /\ ~p.ovf /\ Le(p.v, x)
+          /\ LET q == MulW(p.v, b, w) IN q.ovf \/ Lt(x, q.v)          \* b^(r+1) = b^r * b
 
 \* floor(log2(x)), x # 0, as a function: position of the highest set bit
 RECURSIVE TopBit(_, _)
@@ -319,7 +333,7 @@ NumExpect(c) ==
       [] c.op = "overflowing_add" ->        \* u64 x u64 -> U128, then flags restored: max + a must still revert
             LET r == Add(Resize(a, 16), Resize(b, 16)) IN Returns(<<XVal(r.v)>>)
       [] c.op = "overflowing_mul" ->
-            Returns(<<XVal(Resize(MulFull(a, b), 16))>>)
+            Returns(<<XVal(MulW(a, b, 16).v)>>)
       [] c.op = "pow" ->                     \* c.n = exponent (natural); overflow: revert, or 0 when panic on overflow is disabled
             LET r == Pow(a, c.n, w) IN
             IF r.ovf THEN (IF c.mode = "W" THEN Returns(<<XVal(Zero(w))>>) ELSE Reverts(<<>>))
